@@ -387,6 +387,7 @@ func runC12(c *fw.Ctx) {
 			}
 		}
 		deadline := time.Now().Add(180 * time.Second)
+		lateCheck := false
 		for {
 			missing := ""
 			for f, per := range want {
@@ -408,12 +409,18 @@ func runC12(c *fw.Ctx) {
 			if missing == "" {
 				break
 			}
-			if time.Now().After(deadline) {
-				if c10Drained(15 * time.Second) {
-					c.ViolateData("c12-barrier-lost", history, "after all faults were healed and with nothing in flight, %s (fault sequence: %v)", missing, history)
-				} else {
-					c.Inconclusive("no convergence within 180s: %s", missing)
+			if time.Now().After(deadline) && !lateCheck {
+				// not there yet: either slow (loaded machine) or lost. Wait until the leader-side pipeline has
+				// been completely idle for 45s, then look once more.
+				if !c10Drained(45 * time.Second) {
+					c.Inconclusive("no convergence within 180s and entries still in flight: %s", missing)
+					return
 				}
+				lateCheck = true
+				continue
+			}
+			if lateCheck {
+				c.ViolateData("c12-barrier-lost", history, "after all faults were healed and with the leaders' follow pipelines idle for 45s, %s (fault sequence: %v)", missing, history)
 				return
 			}
 			time.Sleep(100 * time.Millisecond)
